@@ -67,6 +67,16 @@ def check_exact(st):
             if not (abs(arr[0] - s) <= band(sig) and abs(scalar(np.asarray(ser)[0]) - s) <= band(sig) and abs(arr[1] - scalar(np.asarray(ser)[1])) <= band(arr[1])
                     and (not isinstance(ser, pd.Series) or list(ser.index) == [7, 3])):
                 viol.append(('array / Series input answers differently from the scalar input', cs, s, [arr.tolist(), np.asarray(ser).tolist()]))
+            # an exact zero among the loads of an array must not disturb its neighbours (and answers 0)
+            try:
+                with warnings.catch_warnings():
+                    warnings.simplefilter('ignore')
+                    az = np.asarray(law.stress(np.array([0.0, L, -L]), rtol=rtol, tol=tol), dtype=np.float64)
+                    dz = np.asarray(law.stress_secondary_branch(np.array([2 * L, 0.0]), rtol=rtol, tol=tol), dtype=np.float64)
+                if not (az[0] == 0.0 and abs(az[1] - sig) <= band(sig) and abs(az[2] + sig) <= band(sig) and abs(dz[0] - 2 * sig) <= band(2 * sig) and dz[1] == 0.0):
+                    viol.append(('an array containing a zero load answers differently from the scalar inputs', cs, [0.0, sig, -sig, 2 * sig, 0.0], az.tolist() + dz.tolist()))
+            except Exception:
+                raised += 1
             if not abs(strain - (s / E + (abs(s) / Kprime) ** m)) <= 1e-12 * abs(eps):
                 viol.append(('strain(stress, load) is not the Ramberg-Osgood strain of the stress', cs, s / E + (abs(s) / Kprime) ** m, strain))
             if not abs(dstrain - 2 * ((d / 2) / E + (abs(d / 2) / Kprime) ** m)) <= 1e-12 * abs(2 * eps):
@@ -81,6 +91,10 @@ def check_exact(st):
                     viol.append(('load(stress) is not the load whose root the stress is', cs, L, lb))
                 if not abs(lbs - 2 * L) <= band(2 * L, 2):
                     viol.append(('load range of the stress range 2 sigma is not 2L', cs, 2 * L, lbs))
+                lbn = scalar(law.load(-sig, rtol=rtol, tol=tol))
+                lbsn = scalar(law.load_secondary_branch(-2 * sig, rtol=rtol, tol=tol))
+                if not (abs(lbn + L) <= band(L, 2) and abs(lbsn + 2 * L) <= band(2 * L, 2)):
+                    viol.append(('backward functions are not odd: load(-sigma) != -L or load range of -2 sigma != -2L', cs, [-L, -2 * L], [lbn, lbsn]))
             except Exception:
                 raised += 1
             # strictly increasing: the roots for the larger loads of the lattice lie strictly above sigma (exact in the model)
@@ -175,6 +189,11 @@ def _walk(args):
                 forms.append(lg(np.asarray(ser)[0]))
                 multi = np.asarray(law.stress(np.array([0.5 * L, L, 0.25 * L]), rtol=rtol, tol=tol), dtype=np.float64)
                 forms.append(lg(multi[1]))
+                try:       # an exact zero among the loads
+                    withzero = np.asarray(law.stress(np.array([0.0, L, 0.5 * L]), rtol=rtol, tol=tol), dtype=np.float64)
+                    forms.append(lg(withzero[1]) if (withzero[0] == 0.0 or withzero[0] != withzero[0]) else BAD)     # the zero itself: 0, or NaN (Seeger-Beste: 0/0 in its equation — observation O11, not a returned stress)
+                except Exception:
+                    nraised += 1
                 sn = scalar(law.stress(pair(-L), rtol=rtol, tol=tol))
                 d = scalar(law.stress_secondary_branch(pair(2 * L), rtol=rtol, tol=tol))
                 eps = scalar(law.strain(pair(s), pair(L)))
@@ -192,11 +211,18 @@ def _walk(args):
                 except Exception:
                     nraised += 1
                     st['lgLbs'] = 0
+                try:       # backward functions for the mirrored stress: magnitude as logged value, sign folded into signs_ok
+                    lbn = scalar(law.load(sn, rtol=rtol, tol=tol))
+                    st['lgLbneg'] = lg(lbn)
+                    st['signs_ok'] = bool(st['signs_ok'] and lbn < 0)
+                except Exception:
+                    nraised += 1
+                    st['lgLbneg'] = 0
                 smin = abs(s) if smin is None else min(smin, abs(s))
             except Exception as ex:
                 nraised += 1
                 st = {'lgL': lg(L), 'raised': True, 'lgS': 0, 'lgSneg': 0, 'signs_ok': True, 'lgD': 0, 'forms': [], 'lgEps': 0, 'lgEpsRO': 0, 'lgDEps': 0, 'lgDEpsRO': 0,
-                      'resP': 0, 'resS': 0, 'lgLb': 0, 'lgLbs': 0, 'error': repr(ex)[:120]}
+                      'resP': 0, 'resS': 0, 'lgLb': 0, 'lgLbs': 0, 'lgLbneg': 0, 'error': repr(ex)[:120]}
             steps.append(st)
     smin = smin or 1.0
     tau = int(math.ceil(2 ** 20 * math.log2(1 + 4 * (rtol + tol / smin)))) + 2
